@@ -72,6 +72,9 @@ type RunOut struct {
 	Choices    []int          `json:"choices,omitempty"`
 	Known      []string       `json:"known,omitempty"`
 	Inconcl    int            `json:"inconclusive,omitempty"`
+
+	// post runs after the bubble has been left (checks that need real timers, e.g. porcupine).
+	post []func()
 }
 
 func (o *RunOut) probe(name string) {
@@ -323,6 +326,12 @@ func execute(t *testing.T, sc *Scenario, trace bool) (out *RunOut) {
 	synctest.Test(t, func(_ *testing.T) {
 		runInBubble(sc, out, trace)
 	})
+
+	for _, f := range out.post {
+		f()
+	}
+
+	out.post = nil
 
 	return out
 }
